@@ -131,6 +131,9 @@ func checkEscapes(c *checkCtx) {
 	seenTok := map[string]bool{}
 	for i := range srcs {
 		for _, t := range goOut[len(raws)+i].Toks {
+			if t.Type == "CLASS_DASH" {
+				continue
+			}
 			key := t.Type + fmt.Sprint(t.Str)
 			if seenTok[key] {
 				continue
